@@ -1,5 +1,8 @@
 import Ptn.C12.Model
 import Ptn.C12.Lemmas
+import Ptn.C12.Reduced
+import Ptn.C12.Rank
+import Ptn.C12.RankBridge
 import Mathlib.LinearAlgebra.Matrix.Rank
 import Ptn.C01.Cut
 import Ptn.C01.Fill
@@ -78,41 +81,9 @@ theorem bond_eq_cover {K : Type*} [CommSemiring K] {A B C : Type*} [AddCommMonoi
     matrix reaches the rank is the unproved part, see F-C12a.) -/
 theorem cover_ge_rank {F : Type*} [Field F] {ι κ : Type*} [Fintype ι] [Fintype κ]
     [DecidableEq ι] [DecidableEq κ] (G : Matrix ι κ F) (Cu : Finset ι) (Cv : Finset κ)
-    (hc : IsCover G Cu Cv) : G.rank ≤ Cu.card + Cv.card := by
-  let L : Matrix ι (↥Cu ⊕ ↥Cv) F := fun i k =>
-    match k with
-    | .inl c => if i = c.1 then 1 else 0
-    | .inr c => if i ∈ Cu then 0 else G i c.1
-  let R : Matrix (↥Cu ⊕ ↥Cv) κ F := fun k j =>
-    match k with
-    | .inl c => G c.1 j
-    | .inr c => if j = c.1 then 1 else 0
-  have hG : G = L * R := by
-    ext i j
-    rw [Matrix.mul_apply, Fintype.sum_sum_type]
-    simp only [L, R]
-    have h1 : ∑ c : ↥Cu, (if i = c.1 then (1 : F) else 0) * G c.1 j = if i ∈ Cu then G i j else 0 := by
-      rw [Finset.sum_coe_sort Cu (fun c => (if i = c then (1 : F) else 0) * G c j)]
-      simp [Finset.sum_ite_eq]
-    have h2 : ∑ c : ↥Cv, (if i ∈ Cu then (0 : F) else G i c.1) * (if j = c.1 then 1 else 0) =
-        if j ∈ Cv then (if i ∈ Cu then 0 else G i j) else 0 := by
-      rw [Finset.sum_coe_sort Cv (fun c => (if i ∈ Cu then (0 : F) else G i c) * (if j = c then 1 else 0))]
-      simp [Finset.sum_ite_eq]
-    rw [h1, h2]
-    by_cases hi : i ∈ Cu
-    · simp [hi]
-    · by_cases hj : j ∈ Cv
-      · simp [hi, hj]
-      · have : G i j = 0 := by
-          by_contra hne
-          rcases hc i j hne with h | h
-          · exact hi h
-          · exact hj h
-        simp [hi, hj, this]
-  rw [hG]
-  calc (L * R).rank ≤ L.rank := Matrix.rank_mul_le_left L R
-    _ ≤ Fintype.card (↥Cu ⊕ ↥Cv) := Matrix.rank_le_card_width L
-    _ = Cu.card + Cv.card := by simp
+    (hc : IsCover G Cu Cv) : G.rank ≤ Cu.card + Cv.card :=
+  rank_le_cover G Cu Cv hc
+
 /-- The TTNO actually built (`from_state_diagram`) from a single-term Hamiltonian exists and has bond
     dimension one on every edge: bond dimensions of the filled tensors are the vertex counts
     (`Ptn.C01.fill_bonds`). -/
@@ -145,5 +116,166 @@ example : exTree.edgesBelow = [2, 1, 3] := by decide +kernel
 -- the bound of `bond_ge_schmidt_rank` is attained: the 2 × 2 identity has rank 2 and factors through 2
 example : (1 : Matrix (Fin 2) (Fin 2) ℚ) = (1 : Matrix (Fin 2) (Fin 2) ℚ) * 1 := by simp
 example : (1 : Matrix (Fin 2) (Fin 2) ℚ).rank = 2 := by simp
+
+/-! ### numeric (symbol-free) coefficient matrices
+
+For a rational `Γ` symbolic Gaussian elimination is ordinary Gaussian elimination.  Vocabulary
+(`Reduced.lean`, `Rank.lean`, `RankBridge.lean`): `nz A i j` is the Python test `A[i][j] != 0`,
+`suppEdges A` the edge list handed to `BipartiteGraph`, `FullyReduced A` "at most one non-zero entry
+in every row and every column", `NumM A` "no symbolic entry", `numMat A p q` the `p × q` matrix over
+ℚ of a numeric `A`.  The model of `gaussian_elimination` is the one of property C13, the model of
+`minimum_vertex_cover` the one of property C14. -/
+
+/-- **Cover of a fully reduced matrix.**  If the reduced matrix has at most one non-zero entry per row
+    and per column, then its non-zero entries are a matching, the rows carrying them are a cover, every
+    cover has at least as many vertices as there are non-zero entries, and the model of
+    `minimum_vertex_cover` on `BipartiteGraph(m, n, edges)` returns a cover of exactly that size. -/
+theorem cover_of_fully_reduced (A : Ptn.C13.EMat) (n : Nat) (hpos : 0 < A.length) (hn : 0 < n)
+    (hrect : Ptn.C13.Rect A n) (h : FullyReduced A) :
+    Ptn.C14.IsMatching (fun i j => nz A i j = true) (suppEdges A) ∧
+    Ptn.C14.IsCover (fun i j => nz A i j = true) ((suppEdges A).map Prod.fst) [] ∧
+    (∀ cu cv, Ptn.C14.IsCover (fun i j => nz A i j = true) cu cv →
+      (suppEdges A).length ≤ cu.length + cv.length) ∧
+    ∃ g M cu cv, Ptn.C14.mkGraph A.length n (suppEdges A) = some g ∧
+      Ptn.C14.minimumVertexCover g = .ok (M, cu, cv) ∧
+      (∀ p ∈ suppEdges A, p.1 ∈ cu ∨ p.2 ∈ cv) ∧
+      cu.length + cv.length = (suppEdges A).length := by
+  have hM := suppEdges_isMatching A h
+  have hC := suppEdges_rows_cover A n hpos hrect
+  have hw : Ptn.C13.width A = n := Ptn.C13.width_of_rect hrect hpos
+  refine ⟨hM, hC, fun cu cv hc => Ptn.C14.weak_duality _ _ cu cv hM hc, ?_⟩
+  obtain ⟨g, M, cu, cv, hg, hmvc, hMsub, hMl, hMr, hcov, _, _, _, _, hsz, hmax, hmin⟩ :=
+    Ptn.C14.mvc_correct_input A.length n (suppEdges A) hpos hn (fun p hp => by
+      have := (mem_suppEdges A p).1 hp
+      exact ⟨this.1, hw ▸ this.2.1⟩)
+  refine ⟨g, M, cu, cv, hg, hmvc, hcov, ?_⟩
+  have h1 : (suppEdges A).length ≤ M.length := hmax (suppEdges A) (fun _ hp => hp) hM.left hM.right
+  have h2 := hmin ((suppEdges A).map Prod.fst) [] (fun p hp => Or.inl (List.mem_map.2 ⟨p, hp, rfl⟩))
+  simp only [List.length_map, List.length_nil] at h2
+  omega
+
+/-- **Rank of a fully reduced matrix** (any field): the rank is the number of non-zero entries, and
+    the rows carrying them are a cover of the support with exactly `rank` vertices - a minimum cover
+    by `cover_ge_rank`. -/
+theorem rank_of_fully_reduced {F : Type*} [Field F] [DecidableEq F] {ι κ : Type*} [Fintype ι]
+    [Fintype κ] [DecidableEq ι] [DecidableEq κ] (G : Matrix ι κ F) (h : MFullyReduced G) :
+    G.rank = (msupport G).card ∧ IsCover G (msupportRows G) ∅ ∧ (msupportRows G).card = G.rank := by
+  have h1 := card_msupport_le_rank G h
+  have h2 := cover_ge_rank G (msupportRows G) ∅ (msupportRows_cover G)
+  have h3 := msupportRows_card G h
+  simp only [card_empty] at h2
+  exact ⟨by omega, msupportRows_cover G, by omega⟩
+
+/-- **rank Γ ≤ rank M'** for every numeric rectangular `Γ` (no hypothesis on the reduced matrix): the
+    factorisation `Γ = L · M' · R` of `Ptn.C13.sge_exact`, read over ℚ. -/
+theorem sge_numeric_rank_le_reduced (M : Ptn.C13.EMat) (n : Nat) (hpos : 0 < M.length)
+    (hrect : Ptn.C13.Rect M n) (hnum : NumM M) (L : Ptn.C13.RMat) (A : Ptn.C13.EMat) (R : Ptn.C13.RMat)
+    (h : Ptn.C13.gaussianElimination M = .ok L A R) :
+    numMat M M.length n = ratMat L M.length A.length * numMat A A.length R.length * ratMat R R.length n ∧
+    (numMat M M.length n).rank ≤ (numMat A A.length R.length).rank :=
+  ⟨numMat_factor M n hpos hrect hnum L A R h, rank_numMat_le M n hpos hrect hnum L A R h⟩
+
+/-- **Bond of a numeric cut, partial.**  Numeric rectangular `Γ`, reduced by the model of
+    `gaussian_elimination` to `M'` (with at least one column).  IF `M'` is fully reduced, then the model
+    of `minimum_vertex_cover` on the support graph of `M'` returns a cover whose size is the number of
+    non-zero entries of `M'` = `rank M'` ≥ `rank Γ`; it equals `rank Γ` as soon as `rank M' ≤ rank Γ`.
+    Missing for the full statement `sge_numeric_bond_eq_rank`: (1) `FullyReduced M'` - false in general
+    (`sge_numeric_not_fully_reduced`), expected for `Γ` without zero rows / columns, not proved;
+    (2) `rank M' ≤ rank Γ`, i.e. that `L` has a left and `R` a right inverse (they are products of
+    elementary operations with columns / rows deleted), not proved. -/
+theorem sge_numeric_bond_eq_rank_partial (M : Ptn.C13.EMat) (n : Nat) (hpos : 0 < M.length)
+    (hrect : Ptn.C13.Rect M n) (hnum : NumM M) (L : Ptn.C13.RMat) (A : Ptn.C13.EMat) (R : Ptn.C13.RMat)
+    (h : Ptn.C13.gaussianElimination M = .ok L A R) (hq : 0 < R.length) (hfr : FullyReduced A) :
+    ∃ g Mt cu cv, Ptn.C14.mkGraph A.length R.length (suppEdges A) = some g ∧
+      Ptn.C14.minimumVertexCover g = .ok (Mt, cu, cv) ∧
+      cu.length + cv.length = (suppEdges A).length ∧
+      cu.length + cv.length = (numMat A A.length R.length).rank ∧
+      (numMat M M.length n).rank ≤ cu.length + cv.length ∧
+      ((numMat A A.length R.length).rank ≤ (numMat M M.length n).rank →
+        cu.length + cv.length = (numMat M M.length n).rank) := by
+  obtain ⟨⟨_, _, hA, _⟩, ⟨hApos, _, _⟩, _⟩ :=
+    Ptn.C13.sge_exact M n hpos hrect (numM_nesm hnum) L A R h
+  have hnumA : NumM A := Ptn.C13.sge_no_new_symbols M (fun _ => False) hnum L A R h
+  obtain ⟨_, _, _, g, Mt, cu, cv, hg, hmvc, _, hsz⟩ := cover_of_fully_reduced A R.length hApos hq hA hfr
+  have hw : Ptn.C13.width A = R.length := Ptn.C13.width_of_rect hA hApos
+  have hrk := length_suppEdges_eq_rank A hnumA hfr
+  rw [hw] at hrk
+  have hle := rank_numMat_le M n hpos hrect hnum L A R h
+  exact ⟨g, Mt, cu, cv, hg, hmvc, hsz, by omega, by omega, fun hge => by omega⟩
+
+/-- **The reduced matrix of a numeric `Γ` is not always fully reduced**: `Γ` (3 × 4, rank 2, two zero
+    columns) is returned with two non-zero entries in column 0 - the pivot search only looks at the
+    diagonal position and below / to the right of it, and the fixed-point loop stops because no row or
+    column was deleted.  (Replayed on the library: corpus `numeric-zero-columns-not-reduced.json`.)
+    The minimum cover of the returned pattern still has 2 = rank vertices. -/
+theorem sge_numeric_not_fully_reduced :
+    NumM exNotReduced ∧ Ptn.C13.Rect exNotReduced 4 ∧
+    Ptn.C13.gaussianElimination exNotReduced = .ok
+      [[1, 0, 0], [0, 1, -1], [0, 0, 1]]
+      [[.num (-1), .num 0, .num 0, .num 0], [.num (-1), .num 0, .num 0, .num 0],
+       [.num 0, .num 0, .num (-1), .num 0]]
+      [[0, 0, 0, 1], [0, 1, 0, 0], [0, 0, 1, 1], [1, 0, 0, 0]] ∧
+    ¬ FullyReduced [[.num (-1), .num 0, .num 0, .num 0], [.num (-1), .num 0, .num 0, .num 0],
+       [.num 0, .num 0, .num (-1), .num 0]] := by
+  refine ⟨?_, ?_, by decide +kernel, ?_⟩
+  · intro r hr e he
+    simp only [exNotReduced, List.mem_cons, List.not_mem_nil, or_false] at hr
+    rcases hr with rfl | rfl | rfl <;>
+      (simp only [List.mem_cons, List.not_mem_nil, or_false] at he
+       rcases he with rfl | rfl | rfl | rfl <;> trivial)
+  · intro r hr
+    simp only [exNotReduced, List.mem_cons, List.not_mem_nil, or_false] at hr
+    rcases hr with rfl | rfl | rfl <;> rfl
+  · intro hfr
+    have := hfr.2 0 1 0 (by decide +kernel) (by decide +kernel)
+    omega
+
+/-! Non-vacuity of the hypotheses above. -/
+
+-- `cover_of_fully_reduced`, `sge_numeric_bond_eq_rank_partial`: a rank-2 numeric matrix whose reduced
+-- matrix is the 2 × 2 diagonal; the model of `minimum_vertex_cover` answers 2 vertices
+example : Ptn.C13.gaussianElimination exRank2 = .ok [[1, 0], [2, 1], [3, 1]]
+    [[.num 1, .num 0], [.num 0, .num 1]] [[1, 2, 0], [0, 0, 1]] := by decide +kernel
+
+example : NumM exRank2 ∧ Ptn.C13.Rect exRank2 3 := by
+  refine ⟨?_, ?_⟩
+  · intro r hr e he
+    simp only [exRank2, List.mem_cons, List.not_mem_nil, or_false] at hr
+    rcases hr with rfl | rfl | rfl <;>
+      (simp only [List.mem_cons, List.not_mem_nil, or_false] at he
+       rcases he with rfl | rfl | rfl <;> trivial)
+  · intro r hr
+    simp only [exRank2, List.mem_cons, List.not_mem_nil, or_false] at hr
+    rcases hr with rfl | rfl | rfl <;> rfl
+
+example : FullyReduced [[.num 1, .num 0], [.num 0, .num 1]] ∧
+    Ptn.C13.Rect ([[.num 1, .num 0], [.num 0, .num 1]] : Ptn.C13.EMat) 2 ∧
+    suppEdges [[.num 1, .num 0], [.num 0, .num 1]] = [(0, 0), (1, 1)] := by
+  have hrect : Ptn.C13.Rect ([[.num 1, .num 0], [.num 0, .num 1]] : Ptn.C13.EMat) 2 := by
+    intro r hr
+    simp only [List.mem_cons, List.not_mem_nil, or_false] at hr
+    rcases hr with rfl | rfl <;> rfl
+  refine ⟨⟨?_, ?_⟩, hrect, by decide +kernel⟩
+  · intro i j j' h1 h2
+    have b1 := nz_in_range hrect h1
+    have b2 := nz_in_range hrect h2
+    have key : ∀ i < 2, ∀ j < 2, ∀ j' < 2,
+        nz [[.num 1, .num 0], [.num 0, .num 1]] i j = true →
+        nz [[.num 1, .num 0], [.num 0, .num 1]] i j' = true → j = j' := by decide +kernel
+    exact key i b1.1 j b1.2 j' b2.2 h1 h2
+  · intro i i' j h1 h2
+    have b1 := nz_in_range hrect h1
+    have b2 := nz_in_range hrect h2
+    have key : ∀ i < 2, ∀ i' < 2, ∀ j < 2,
+        nz [[.num 1, .num 0], [.num 0, .num 1]] i j = true →
+        nz [[.num 1, .num 0], [.num 0, .num 1]] i' j = true → i = i' := by decide +kernel
+    exact key i b1.1 i' b2.1 j b1.2 h1 h2
+
+-- `rank_of_fully_reduced`: a 2 × 3 partial permutation pattern
+example : MFullyReduced (Matrix.of ![![(0 : ℚ), 2, 0], ![0, 0, 5]]) := by
+  refine ⟨?_, ?_⟩
+  · intro i j j'; fin_cases i <;> fin_cases j <;> fin_cases j' <;> simp
+  · intro i i' j; fin_cases i <;> fin_cases i' <;> fin_cases j <;> simp
+
 
 end Ptn.C12
